@@ -127,6 +127,8 @@ from .instructionselector import ContextInterface
 class MiniCtx(ContextInterface):
     def __init__(self, frame, arch):
         self._frame = frame
+        # Patterns may place a constant in the literal pool of the frame:
+        self.frame = frame
         self._arch = arch
         self.instructions = []
 
